@@ -608,6 +608,28 @@ func vfWireServe(c net.Conn, mode string) {
 		time.Sleep(50 * time.Millisecond)
 	case mode == "stall": // accepts, reads, never answers
 		io.Copy(io.Discard, c)
+	case mode == "jsonka": // an HTTP/1.1 server that keeps the connection open for further requests (as real daemons do)
+		br := bufio.NewReader(c)
+		for {
+			closeAfter := false
+			for {
+				l, err := br.ReadString('\n')
+				if err != nil {
+					return
+				}
+				if strings.EqualFold(strings.TrimSpace(l), "connection: close") {
+					closeAfter = true
+				}
+				if strings.TrimSpace(l) == "" {
+					break
+				}
+			}
+			body := `{"name":"vf","cluster_name":"vf","ID":"vf","Version":"1","ApiVersion":"1.41","version":{"number":"7.0.0"}}`
+			fmt.Fprintf(c, "HTTP/1.1 200 OK\r\nContent-Type: application/json\r\nContent-Length: %d\r\n\r\n%s", len(body), body)
+			if closeAfter {
+				return
+			}
+		}
 	default:
 		br := bufio.NewReader(c)
 		for {
